@@ -202,5 +202,171 @@ def pacLookupMemo {κ : Type} [DecidableEq κ] (key : ProxyURL → κ) (t : Opti
 def proxyAuthFor (u : ProxyURL) (c : Option Cred) : Option Bytes :=
   C05.authValue (match c with | some c => { u with user := some c } | none => u)
 
+/-! ### lookups in flight at the same time
+
+`CredentialsMatcher.Match` is called by every request (`setBasicAuth`: the request URL; `pacProxy`: the
+selected proxy) on the one matcher of the instance, from as many goroutines as there are requests in flight.
+The matcher is modelled as a machine: shared state, and the atomic steps one lookup is made of; a schedule
+names, step by step, the lookup that moves next.  The code's matcher reads tables that nobody writes after
+`NewCredentialsMatcher` (`tableMatcher`: one step, no state); `twoSlotCache` is the counter-model that
+remembers the last lookup in two separately updated cells. -/
+
+/-- where a lookup in flight stands -/
+inductive LookupPc
+  | start
+  | hit                              -- (cache) the remembered key was equal, the remembered answer is read next
+  | computed (c : Option Cred)       -- (cache) the tables were walked, the key is stored next
+  | keyStored (c : Option Cred)      -- (cache) the key is stored, the answer is stored next
+  | done (c : Option Cred)
+  deriving Repr, DecidableEq
+
+structure Lookup where
+  hp : Bytes
+  pc : LookupPc := .start
+  deriving Repr, DecidableEq
+
+/-- a matcher implementation: one atomic step of a lookup over the state all lookups share -/
+structure MatcherImpl (σ : Type) where
+  step : σ → Lookup → σ × Lookup
+
+/-- the lookups in flight (by number) under a schedule: the named lookup makes its next step -/
+def runSched {σ : Type} (m : MatcherImpl σ) : σ → (Nat → Lookup) → List Nat → σ × (Nat → Lookup)
+  | s, ls, [] => (s, ls)
+  | s, ls, i :: sched =>
+    runSched m (m.step s (ls i)).1 (fun j => if j = i then (m.step s (ls i)).2 else ls j) sched
+
+/-- `CredentialsMatcher.Match`: the four maps are only read -/
+def tableMatcher (t : Option CredTable) : MatcherImpl Unit where
+  step s l := match l.pc with
+    | .done _ => (s, l)
+    | _ => (s, { l with pc := .done (matchHostport t l.hp) })
+
+/-- the two cells of the counter-model: host:port of the last lookup, and its answer -/
+structure LastSlots where
+  key : Option Bytes := none
+  val : Option Cred := none
+  deriving Repr, DecidableEq
+
+/-- counter-model: `Match` with a one-entry "last lookup" memo kept in two cells, each loaded and stored
+    atomically, the pair not: load key; equal → load answer; else walk the tables, store key, store answer -/
+def twoSlotCache (t : Option CredTable) : MatcherImpl LastSlots where
+  step s l := match l.pc with
+    | .start => if s.key = some l.hp then (s, { l with pc := .hit }) else (s, { l with pc := .computed (matchHostport t l.hp) })
+    | .hit => (s, { l with pc := .done s.val })
+    | .computed c => ({ s with key := some l.hp }, { l with pc := .keyStored c })
+    | .keyStored c => ({ s with val := c }, { l with pc := .done c })
+    | .done _ => (s, l)
+
+/-- `look` is what lookups get from implementation `m` started in state `s0`: every answer `look hp` is the
+    answer of a finished lookup for `hp` under SOME schedule among SOME other lookups in flight -/
+def ServedBy {σ : Type} (m : MatcherImpl σ) (s0 : σ) (look : Bytes → Option Cred) : Prop :=
+  ∀ hp, ∃ (ls : Nat → Lookup) (sched : List Nat) (i : Nat),
+    (∀ j, (ls j).pc = .start) ∧ (ls i).hp = hp ∧ i ∈ sched ∧ ((runSched m s0 ls sched).2 i).pc = .done (look hp)
+
+/-- `MatchURL` over whatever `Match` answered -/
+def matchURLWith (look : Bytes → Option Cred) (scheme urlHost : Bytes) : Option Cred :=
+  if (urlPort urlHost).isEmpty then
+    if scheme == bs "http" then look (urlHost ++ bs ":80")
+    else if scheme == bs "https" then look (urlHost ++ bs ":443")
+    else none
+  else look urlHost
+
+/-- `upstreamProxyURL` over whatever `Match` answered -/
+def upstreamProxyURLWith (look : Bytes → Option Cred) (u : ProxyURL) : ProxyURL :=
+  match u.user with
+  | some _ => u
+  | none => { u with user := matchURLWith look u.scheme u.host }
+
+/-- `pacProxy`'s attach over whatever `Match` answered -/
+def pacAttachWith (look : Bytes → Option Cred) (u : ProxyURL) : ProxyURL :=
+  match matchURLWith look u.scheme u.host with
+  | some c => { u with user := some c }
+  | none => u
+
+/-- `selectWithCreds` over whatever `Match` answered -/
+def selectWithCredsWith (look : Bytes → Option Cred) (fc : FullCfg) (host : Bytes) : Except RouteError (Option ProxyURL) :=
+  let rc : RouteCfg := match fc.route.base with
+    | .static u => { fc.route with base := .static (upstreamProxyURLWith look u) }
+    | _ => fc.route
+  match selectProxy rc host, fc.route.base with
+  | .ok (some u), .pac _ => .ok (some (pacAttachWith look u))
+  | r, _ => r
+
+/-- `resolve` over whatever `Match` answered to the lookups made for this request -/
+def resolveWith (look : Bytes → Option Cred) (fc : FullCfg) (scheme urlHost : Bytes) : Req.Cfg :=
+  { fc.base with
+    upstream := toUpstream (selectWithCredsWith look fc (hostname urlHost))
+    siteCred := (matchURLWith look scheme urlHost).map fun c => basicAuthValue c.1 c.2 }
+
+def requestActionsWith (look : Bytes → Option Cred) (fc : FullCfg) (ctx : Req.Ctx) (r : Req.Request) : List Req.Action :=
+  match Req.reqTarget ctx r with
+  | none => []
+  | some (scheme, urlHost) => Req.requestActions (resolveWith look fc scheme urlHost) ctx r
+
+def connectActionsWith (look : Bytes → Option Cred) (fc : FullCfg) (ctx : Req.Ctx) (c : Req.ConnectReq) : List Req.Action :=
+  Req.connectActions (resolveWith look fc [] c.authority) ctx c
+
+/-- one lookup run to its end on its own (a caller that makes one lookup at a time) -/
+def lookupAlone {σ : Type} (m : MatcherImpl σ) (s : σ) (hp : Bytes) : σ × Lookup :=
+  let a := m.step s { hp := hp }
+  let b := m.step a.1 a.2
+  let c := m.step b.1 b.2
+  m.step c.1 c.2
+
+/-- lookups made one after the other, each finished before the next starts -/
+def lookupsInTurn {σ : Type} (m : MatcherImpl σ) : σ → List Bytes → List LookupPc
+  | _, [] => []
+  | s, hp :: hps => (lookupAlone m s hp).2.pc :: lookupsInTurn m (lookupAlone m s hp).1 hps
+
+/-! ### one process that constructs several proxies
+
+`NewHTTPProxy(cfg, …)` is handed a `*HTTPProxyConfig`; `cfg.UpstreamProxy` is a `*url.URL`.  The caller
+may use the same configuration (the same `*url.URL`) for several proxies, each with a credentials table of its
+own, and derive further configurations from it by value copy (`u2 := *cfg.UpstreamProxy; u2.Host = …`: the
+`User` pointer travels with the copy).  The caller's URLs are modelled as numbered cells; a constructor is a
+function from (its table, the URL it is handed) to (the URL it leaves in the caller's cell, the URL the proxy
+uses).  `upstreamProxyURL` completes a COPY: the code's constructor leaves the cell alone (`ctorCopy`);
+`ctorInPlace` is the counter-model that completes the caller's URL. -/
+
+inductive HistOp
+  | build (cell : Nat) (t : Option CredTable)    -- NewHTTPProxy with the URL in this cell and this table
+  | derive (src : Nat) (host : Bytes)            -- a new cell: value copy of cell `src`, pointed at `host`
+  deriving Repr
+
+abbrev Ctor := Option CredTable → ProxyURL → ProxyURL × ProxyURL
+
+def ctorCopy : Ctor := fun t u => (u, upstreamProxyURL t u)
+def ctorInPlace : Ctor := fun t u => (upstreamProxyURL t u, upstreamProxyURL t u)
+
+/-- what the caller does to its cells, constructions aside -/
+def callerStep (cells : List ProxyURL) : HistOp → List ProxyURL
+  | .build _ _ => cells
+  | .derive src host => match cells[src]? with
+    | some u => cells ++ [{ u with host := host }]
+    | none => cells
+
+/-- the cells as the caller wrote them after a history (constructions write nothing) -/
+def writtenCells (cells : List ProxyURL) (ops : List HistOp) : List ProxyURL := ops.foldl callerStep cells
+
+/-- a history under a constructor: per operation the URL (with credentials) the proxy built by it presents
+    itself to its upstream proxy with (`none` for an operation that builds nothing), and the cells afterwards -/
+def runHist (ctor : Ctor) : List ProxyURL → List HistOp → List (Option ProxyURL) × List ProxyURL
+  | cells, [] => ([], cells)
+  | cells, .build c t :: ops =>
+    match cells[c]? with
+    | some u =>
+      let r := runHist ctor (cells.set c (ctor t u).1) ops
+      (some (ctor t u).2 :: r.1, r.2)
+    | none => let r := runHist ctor cells ops; (none :: r.1, r.2)
+  | cells, .derive src host :: ops =>
+    let r := runHist ctor (callerStep cells (.derive src host)) ops
+    (none :: r.1, r.2)
+
+/-- the k-th operation judged on its own configuration: the URL in its cell as the caller wrote it, its table -/
+def ownAnswer (cells : List ProxyURL) (ops : List HistOp) (k : Nat) : Option ProxyURL :=
+  match ops[k]? with
+  | some (.build c t) => (writtenCells cells (ops.take k))[c]?.map (upstreamProxyURL t)
+  | _ => none
+
 end C06
 end FwdVerif
